@@ -164,21 +164,39 @@ func extract(v *variant, rc roleCfg) (*gAut, error) {
 }
 
 // decodableAST lists the message type ids for which the decoder function in
-// messages.go has a `case` (go/ast).
-func decodableAST(repo string, v *variant) ([]int, error) {
+// messages.go has a case, by a tolerant go/ast scan.  Recognised forms, in
+// the decoder function and in package-level helper functions it calls (depth
+// <= 3): `switch <param> { case C: ... }`, `if <param> == C { ... }` chains,
+// and package-level composite literals (tables / maps of constructors) with
+// constant keys or positional elements that the functions refer to.  The scan
+// may over-approximate (a table entry behind a wrong bounds guard); it is only
+// one of two sources - the dynamic probe (decodableDyn) must agree as well.
+// ok=false: no recognisable pattern - the caller falls back to the probe.
+func decodableAST(repo string, v *variant) (ids []int, ok bool, why string) {
 	dir := filepath.Join(repo, "protocol", v.Pkg)
 	fset := token.NewFileSet()
 	pkgs, err := parser.ParseDir(fset, dir, func(fi os.FileInfo) bool { return !strings.HasSuffix(fi.Name(), "_test.go") }, 0)
 	if err != nil {
-		return nil, err
+		return nil, false, "cannot parse " + dir + ": " + err.Error()
 	}
 	consts := map[string]int{}
-	var fn *ast.FuncDecl
+	funcs := map[string]*ast.FuncDecl{}
+	vars := map[string]ast.Expr{}
 	for _, p := range pkgs {
 		for _, f := range p.Files {
 			for _, d := range f.Decls {
 				switch d := d.(type) {
 				case *ast.GenDecl:
+					if d.Tok == token.VAR {
+						for _, sp := range d.Specs {
+							vs := sp.(*ast.ValueSpec)
+							for i, n := range vs.Names {
+								if i < len(vs.Values) {
+									vars[n.Name] = vs.Values[i]
+								}
+							}
+						}
+					}
 					if d.Tok != token.CONST {
 						continue
 					}
@@ -201,49 +219,124 @@ func decodableAST(repo string, v *variant) ([]int, error) {
 						iota++
 					}
 				case *ast.FuncDecl:
-					if d.Recv == nil && d.Name.Name == v.DecoderFunc {
-						fn = d
+					if d.Recv == nil {
+						funcs[d.Name.Name] = d
 					}
 				}
 			}
 		}
 	}
-	if fn == nil {
-		return nil, fmt.Errorf("%s: decoder function %s not found in %s", v.Name, v.DecoderFunc, dir)
+	fn := funcs[v.DecoderFunc]
+	if fn == nil || fn.Body == nil {
+		return nil, false, "decoder function " + v.DecoderFunc + " not found"
 	}
-	var out []int
-	found := false
-	var bad error
-	ast.Inspect(fn.Body, func(n ast.Node) bool {
-		sw, ok := n.(*ast.SwitchStmt)
-		if !ok || found {
-			return true
+	set := map[int]bool{}
+	visited := map[string]bool{}
+	var scan func(f *ast.FuncDecl, depth int)
+	scan = func(f *ast.FuncDecl, depth int) {
+		if f == nil || f.Body == nil || visited[f.Name.Name] || depth > 3 {
+			return
 		}
-		found = true
-		for _, c := range sw.Body.List {
-			cc := c.(*ast.CaseClause)
-			// a case counts only if its body assigns / returns something (not an empty fallthrough to nil)
-			for _, e := range cc.List {
-				val, ok := evalConst(e, 0, consts)
-				if !ok {
-					bad = fmt.Errorf("%s: cannot evaluate case expression in %s", v.Name, v.DecoderFunc)
-					continue
-				}
-				if len(cc.Body) > 0 {
-					out = append(out, val)
+		visited[f.Name.Name] = true
+		params := map[string]bool{}
+		if f.Type.Params != nil {
+			for _, fl := range f.Type.Params.List {
+				for _, n := range fl.Names {
+					params[n.Name] = true
 				}
 			}
 		}
-		return false
-	})
-	if bad != nil {
-		return nil, bad
+		// local aliases of a parameter: `t := uint8(msgType)`
+		isParam := func(e ast.Expr) bool {
+			for {
+				switch x := e.(type) {
+				case *ast.ParenExpr:
+					e = x.X
+					continue
+				case *ast.CallExpr:
+					if len(x.Args) == 1 {
+						e = x.Args[0]
+						continue
+					}
+					return false
+				case *ast.Ident:
+					return params[x.Name]
+				}
+				return false
+			}
+		}
+		ast.Inspect(f.Body, func(n ast.Node) bool {
+			switch x := n.(type) {
+			case *ast.AssignStmt:
+				if len(x.Lhs) == 1 && len(x.Rhs) == 1 && isParam(x.Rhs[0]) {
+					if id, ok := x.Lhs[0].(*ast.Ident); ok {
+						params[id.Name] = true
+					}
+				}
+			case *ast.SwitchStmt:
+				if x.Tag != nil && isParam(x.Tag) {
+					for _, c := range x.Body.List {
+						cc := c.(*ast.CaseClause)
+						if len(cc.Body) == 0 {
+							continue // an empty case selects nothing
+						}
+						for _, e := range cc.List {
+							if val, ok := evalConst(e, 0, consts); ok {
+								set[val] = true
+							}
+						}
+					}
+				}
+			case *ast.BinaryExpr:
+				if x.Op == token.EQL {
+					if isParam(x.X) {
+						if val, ok := evalConst(x.Y, 0, consts); ok {
+							set[val] = true
+						}
+					} else if isParam(x.Y) {
+						if val, ok := evalConst(x.X, 0, consts); ok {
+							set[val] = true
+						}
+					}
+				}
+			case *ast.CallExpr:
+				if id, ok := x.Fun.(*ast.Ident); ok {
+					if h := funcs[id.Name]; h != nil {
+						for _, a := range x.Args {
+							if isParam(a) {
+								scan(h, depth+1)
+								break
+							}
+						}
+					}
+				}
+			case *ast.Ident:
+				if val, ok := vars[x.Name]; ok {
+					if cl, ok := val.(*ast.CompositeLit); ok {
+						for i, el := range cl.Elts {
+							if kv, ok := el.(*ast.KeyValueExpr); ok {
+								if k, ok := evalConst(kv.Key, 0, consts); ok {
+									set[k] = true
+								}
+							} else if _, isArr := cl.Type.(*ast.ArrayType); isArr {
+								set[i] = true
+							}
+						}
+					}
+				}
+			}
+			return true
+		})
 	}
-	if !found {
-		return nil, fmt.Errorf("%s: no switch in %s", v.Name, v.DecoderFunc)
+	scan(fn, 0)
+	if len(set) == 0 {
+		return nil, false, "no switch / if-chain / constructor table on the message type found in " + v.DecoderFunc
 	}
-	sort.Ints(out)
-	return out, nil
+	for k := range set {
+		ids = append(ids, k)
+	}
+	sort.Ints(ids)
+	return ids, true, ""
 }
 
 func evalConst(e ast.Expr, iota int, consts map[string]int) (int, bool) {
@@ -280,25 +373,38 @@ func evalConst(e ast.Expr, iota int, consts map[string]int) (int, bool) {
 	return 0, false
 }
 
-// decodableDyn: message types whose sample message, encoded by the real codec,
-// is turned back into a message of that type by the REAL decoder of the config.
+// decodableDyn is the dynamic probe: for every message type id 0..63 the REAL
+// decoder of the config is given (a) the sample message built with the
+// package's real constructor and encoded by the real codec, if there is one,
+// and (b) the bare one-element array [id]; the id counts as decodable when one
+// of them comes back as a message of that type.
 func decodableDyn(v *variant, cfg protocol.ProtocolConfig) []int {
 	var out []int
-	for t, mkf := range v.Samples {
+	try := func(t uint8, data []byte) bool {
 		var ok bool
 		vh.Recover(func() {
-			data, err := encodeMsg(mkf())
-			if err != nil {
-				return
-			}
 			m, err := cfg.MessageFromCborFunc(uint(t), data)
 			ok = err == nil && m != nil && m.Type() == t
 		})
+		return ok
+	}
+	for id := 0; id < 64; id++ {
+		t := uint8(id)
+		ok := false
+		if mkf := v.Samples[t]; mkf != nil {
+			vh.Recover(func() {
+				if data, err := encodeMsg(mkf()); err == nil {
+					ok = try(t, data)
+				}
+			})
+		}
+		if !ok {
+			ok = try(t, []byte{0x81, byte(id)}) || (id >= 24 && try(t, []byte{0x81, 0x18, byte(id)}))
+		}
 		if ok {
-			out = append(out, int(t))
+			out = append(out, id)
 		}
 	}
-	sort.Ints(out)
 	return out
 }
 
@@ -356,6 +462,8 @@ type extracted struct {
 	Cfgs   []roleCfg
 	DecAST []int
 	DecDyn []int
+	DecSrc string // "ast" or "probe" (go/ast pattern not found: dec_ast is the probe's set)
+	DecWhy string
 }
 
 func extractAll(repo string) ([]*extracted, error) {
@@ -375,13 +483,19 @@ func extractAll(repo string) ([]*extracted, error) {
 			}
 			ex.Auts = append(ex.Auts, a)
 		}
+		ex.DecDyn = decodableDyn(v, rcs[0].Cfg)
 		if repo != "" {
-			ex.DecAST, err = decodableAST(repo, v)
-			if err != nil {
-				return nil, err
+			ids, ok, why := decodableAST(repo, v)
+			if os.Getenv("C16_FORCE_PROBE") != "" { // test switch for the fallback path
+				ok, why = false, "forced by C16_FORCE_PROBE"
+			}
+			if ok {
+				ex.DecAST, ex.DecSrc = ids, "ast"
+			} else {
+				// syntactic form not recognised: the decoder-case set comes from the probe
+				ex.DecAST, ex.DecSrc, ex.DecWhy = ex.DecDyn, "probe", why
 			}
 		}
-		ex.DecDyn = decodableDyn(v, rcs[0].Cfg)
 		out = append(out, ex)
 	}
 	return out, nil
@@ -415,6 +529,7 @@ func gen(out string) error {
 			gs[i] = fmt.Sprintf("(%s, %s, %s)", vh.N(uint64(g.ID)), vh.N(uint64(g.MsgType)), vh.Str(g.Name))
 		}
 		fmt.Fprintf(&sb, "Definition guards_%s : list (N * N * string) := %s.\n", ex.V.Name, vh.List(gs))
+		fmt.Fprintf(&sb, "(* decoder-case set obtained by: %s %s *)\nDefinition dec_src_%s : string := %s.\n", ex.DecSrc, ex.DecWhy, ex.V.Name, vh.Str(ex.DecSrc))
 		fmt.Fprintf(&sb, "Definition dec_ast_%s : list N := %s.\n", ex.V.Name, coqNs(ex.DecAST))
 		fmt.Fprintf(&sb, "Definition dec_dyn_%s : list N := %s.\n\n", ex.V.Name, coqNs(ex.DecDyn))
 	}
